@@ -6,9 +6,10 @@
    destination, promotion letter, castling as e1g1/e1c1/e8g8/e8c8 in standard mode and king-takes-rook in Chess960
    mode); distinct generated moves print differently (standard mode: under `std_geo`, a side that may castle has its
    king on the e-file, so the rewritten castling target cannot collide with a king step); the move parser resolves the
-   printed string to the same move.  That the generated moves are the rules' legal moves is C01. *)
+   printed string to the same move.  With C01's equivalence (the generated moves ARE the rules' legal moves) this covers every
+   legal move of the rules: C09_every_legal_move_has_its_notation. *)
 From Coq Require Import NArith ZArith List Bool.
-From Rawr Require Import Consts Bits Magic Position MoveGen MakeMove MakeStages Fen Uci Rules Abs UciSpec NotationFacts NotationMoves.
+From Rawr Require Import Consts Bits Magic Position MoveGen MakeMove MakeStages Fen Uci Rules Abs UciSpec NotationFacts NotationMoves GenSane Closure EpRetro MovegenComplete.
 Import ListNotations.
 Local Open Scope N_scope.
 
@@ -37,7 +38,24 @@ Proof. exact good_pos_notation. Qed.
 Example C09_premises_startpos : good_pos_b startpos = true /\ std_geo startpos.
 Proof. split; [vm_compute; reflexivity|intros _ _; vm_compute; reflexivity]. Qed.
 
+(* ---- over the rules' own list of legal moves (C01): every legal move of the rules is generated, printed exactly as the
+   specification writes it, by no other legal move, and read back by the parser as that move *)
+Theorem C09_every_legal_move_has_its_notation : forall p, Inv0 p -> ep_ok_b p = true -> std_geo p ->
+  forall sm, In sm (legal (abs_state p)) ->
+  exists m, In m (legal_moves p) /\ dec p m = sm
+    /\ to_uci p m = move_str (is_frc p) (abs_state p) sm
+    /\ find_move p (to_uci p m) = Some m
+    /\ (forall m', In m' (legal_moves p) -> to_uci p m' = to_uci p m -> m' = m).
+Proof.
+  intros p I He SG sm Hsm. pose proof (i0_good p I) as G. pose proof (i0_cg p I) as CG.
+  destruct (legal_generated p sm I He Hsm) as (m & Hm & Hd). exists m. split; [exact Hm|split; [exact Hd|]].
+  split; [rewrite <- Hd; exact (to_uci_is_move_str p m G CG Hm)|].
+  split; [exact (find_move_roundtrip p m G CG SG Hm)|].
+  intros m' Hm' E. exact (to_uci_inj_legal p m' m G CG SG Hm' Hm E).
+Qed.
+
 Print Assumptions C09_to_uci_shape.
 Print Assumptions C09_square_names_injective.
 Print Assumptions C09_to_uci_frc_injective.
 Print Assumptions C09_printed_is_the_specified_notation.
+Print Assumptions C09_every_legal_move_has_its_notation.
